@@ -4,6 +4,21 @@
 pub uninterp spec fn blen(s: Seq<char>) -> nat;
 #[verifier::external_body]
 pub proof fn axiom_blen(a: Seq<char>, b: Seq<char>) ensures blen(a + b) == blen(a) + blen(b) {}
+/// a prefix / suffix is not longer in bytes than the whole (from additivity)
+pub broadcast proof fn lemma_prefix_blen(p: Seq<char>, s: Seq<char>)
+    requires #[trigger] p.is_prefix_of(s)
+    ensures blen(p) <= blen(s)
+{
+    assert(s =~= p + s.skip(p.len() as int));
+    axiom_blen(p, s.skip(p.len() as int));
+}
+pub broadcast proof fn lemma_suffix_blen(p: Seq<char>, s: Seq<char>)
+    requires #[trigger] p.is_suffix_of(s)
+    ensures blen(p) <= blen(s)
+{
+    assert(s =~= s.take(s.len() - p.len()) + p);
+    axiom_blen(s.take(s.len() - p.len()), p);
+}
 /// byte offset i falls between two characters of s (or at an end)
 pub open spec fn is_boundary(s: Seq<char>, i: int) -> bool { exists|k: int| 0 <= k <= s.len() && #[trigger] blen(s.take(k)) == i }
 /// the characters before byte offset i (meaningful when i is a boundary)
